@@ -181,6 +181,7 @@ func (c *channel) drainSendQ() {
 	for {
 		select {
 		case req := <-c.sendQ:
+			vEmit("Drain", c.node.ID(), req.msg.Metadata.MessageID)
 			c.routeResponse(req.msg.Metadata.MessageID, response{nid: c.node.ID(), err: fmt.Errorf("channel closed")})
 		default:
 			return
@@ -413,6 +414,7 @@ func (c *channel) reconnect(maxRetries float64) {
 			// has just re-created. If the lock is busy, somebody else is using or
 			// re-creating the stream; go on with the current state of the stream.
 			if !c.streamMut.TryLock() {
+				vEmit("ReconLockBusy", c.node.ID(), 0, "who", maxRetries)
 				return
 			}
 		} else {
@@ -464,6 +466,7 @@ func (c *channel) reconnect(maxRetries float64) {
 			retries++
 			vEmit("ReconTimer", c.node.ID(), 0, "who", maxRetries)
 		case <-c.reconnected:
+			vEmit("ReconWoken", c.node.ID(), 0, "who", maxRetries)
 			// the stream may be up again; check without waiting out the back-off
 		case <-c.parentCtx.Done():
 			vEmit("ReconParentDone", c.node.ID(), 0, "who", maxRetries)
